@@ -1,8 +1,8 @@
 SPECIFICATION Spec
 CONSTANTS
-  MaxTraits = 2
+  MaxTraits = 1
   MaxMembers = 2
   AnyOrder = FALSE
   RepeatConflictIsError = FALSE
-INVARIANTS TypeOK ImplsAreDocumented FoldIsUnroll RejectedIffFaulty NeverPanics
+INVARIANTS TypeOK NeverPanics
 CHECK_DEADLOCK FALSE
